@@ -387,7 +387,7 @@ type c12Buf struct {
 	max     int
 	target  int
 	late    *c12Late // a NewConsumer call made while the shutdown may be under way
-	differ  int // index of the consumer a separate goroutine calls Diff on (-1 none)
+	differ  int      // index of the consumer a separate goroutine calls Diff on (-1 none)
 	dpause  pause
 	dBusy   bool
 }
